@@ -10,7 +10,7 @@ KEYS = [
     "doctrans.pure_utils:unquote", "doctrans.pure_utils:quote", "doctrans.pure_utils:code_quoted",
     "doctrans.pure_utils:location_within", "vf.contracts.laws:quote_twice", "vf.contracts.laws:unquote_quote",
     "doctrans.defaults_utils:extract_default", "doctrans.defaults_utils:needs_quoting",
-    "doctrans.defaults_utils:set_default_doc", "vf.contracts.laws:sdd_twice",
+    "doctrans.defaults_utils:set_default_doc", "vf.contracts.laws:sdd_twice", "doctrans.emitter_utils:interpolate_defaults",
 ]
 PHRASES = ("Defaults to ", "defaults to ", "Default value is ", "Default: ", "Defaults to\n")
 PROSE = ("the x", "The x.", "a, b (c) and `d`,", "uses 2.5 sigma.", "Some default behaviour applies", "")
